@@ -409,6 +409,6 @@ def run(prog, ctx=None):
                 what, " and ".join(miss)))
         if not findings:
             res.ob("%s:no-direct-write" % f.qn, True, f, f.line)
-    if nfun < 3:
+    if nfun < (ctx.get("min_functions", 3) if ctx else 3):
         raise Broken("COWGUARD: only %d handle-level functions found" % nfun)
     return res
